@@ -179,6 +179,13 @@ class CGraph:
                 raise Exception(err_str)
             # print self
 
+        # the restore steps of the in-place writes have rolled the buffers back to their initial
+        # contents; apply the recorded writes again so that the graph holds the values of the last
+        # forward evaluation and can answer further reverse sweeps
+        for f in self.functionList:
+            if is_set(f.setitem):
+                operator.setitem(f.args[0].x, f.args[1], f.args[2].x)
+
     def function(self, x_list):
         """ computes the function of a function y = f(x_list), where y is a scalar
         and x_list is a list or tuple of input arguments.
